@@ -29,7 +29,8 @@ def lookup_by_spi(ctx, rule):
     an IKE_SA that was removed from the table is never handed a message again"""
     by_spi = ctx.func('ikesacontroller.IkeSaController._get_ike_sa_by_spi')
     BS = ctx.sval(by_spi)
-    ctx.check(strip_ids(BS.ret()) == strip_ids(BS.expr('next(x for x in self.ike_sas if x.my_spi == %s)' % by_spi.call_params()[0])), rule,
+    gen = '(x for x in self.ike_sas if x.my_spi == %s)' % by_spi.call_params()[0]
+    ctx.check(strip_ids(BS.ret()) in (strip_ids(BS.expr('next(%s)' % gen)), strip_ids(BS.expr('next(%s, None)' % gen))), rule,
               'the lookup compares the local SPI of each table entry', key=(rule, 'lookup-compare'), site=ctx.site(by_spi, by_spi.node),
               detail={'returned': tq.text(BS.ret())})
 
@@ -166,24 +167,12 @@ def run(ctx):
         ctx.check(vals == ['SPIr', 'SPIi'], 'D1', 'the lookup key is the SPI of the receiver\'s role: spi_r when the sender is the original '
                   'initiator, else spi_i', key=('D1', 'lookup-key'), site=ctx.site(dm, c.node), detail={'key': tq.text(key, 300)})
         # StopIteration -> return None without effect
-        def missed(pc):
-            """this path is taken when - and only when - the lookup's StopIteration was caught: directly under the handler, or under a
-            test of the value the handler leaves behind (`ike_sa = None` ... `if ike_sa is None`)"""
-            from ..sval import is_const, cval
+        proto = common.lookup_protocol(ctx, 'ikesacontroller.IkeSaController._get_ike_sa_by_spi')
 
-            def under(v):
-                return lambda t: v if (t[0] == 'caught' and 'StopIteration' in tq.text(t)) else None
-            rel = [a for a in pc if tq.find(a[0], lambda t: t[0] == 'caught' and 'StopIteration' in tq.text(t)) or
-                   (a[0][0] == 'caught' and 'StopIteration' in tq.text(a[0]))]
-            if not rel:
-                return False
-            hit = [tq.restrict(a[0], under(True)) if a[0][0] != 'caught' else ('const', 'bool', True) for a in rel]
-            oth = [tq.restrict(a[0], under(False)) if a[0][0] != 'caught' else ('const', 'bool', False) for a in rel]
-            holds = all(is_const(h) and bool(cval(h)) == a[1] for h, a in zip(hit, rel))
-            fails = any(is_const(o) and bool(cval(o)) != a[1] for o, a in zip(oth, rel)) or any(not is_const(o) for o in oth)
-            return holds and fails
+        def missed(pc):
+            return common.lookup_missed(pc, proto, c.term)
         rets = [(pc, t) for pc, t, _ in DM.returns if missed(pc)]
-        ctx.check(bool(rets), 'D1', 'a datagram for an unknown SPI is handled (StopIteration caught at the lookup)',
+        ctx.check(bool(rets), 'D1', 'a datagram for an unknown SPI is handled (the miss of the lookup - StopIteration caught, or None tested - is a path of its own)',
                   key=('D1', 'unknown-spi-unhandled'), site=ctx.site(dm, c.node))
         eff = [x for x in DM.calls if missed(x.pc) and (x.name in ('process_message', 'append', 'remove', 'delete_child_sas') or
                                                        any(q.startswith('ikesa.IkeSa.') and not q.split('.')[-1].startswith('log') for q in x.quals))]
